@@ -1,98 +1,48 @@
 /-
-  Proofs/CollectorBenign — a decidable sufficient condition on raw object facts for `Benign`: the probes the code
-  performs WITHOUT a guard (`len` of dicts and list-named types, `tuple` of list-named types, `isinstance(·, Exception)`,
-  `.args`, `hasattr(·, '__dict__')`, `.__dict__`) do not raise where the code, by its own classification, performs them.
-  `str` is not among them: it may raise for any object.
+  Proofs/CollectorBenign — with the two guards the code has now (`lenGuarded`: `variable_to_string` catches `Exception`
+  around `len(value)` and falls back to `safe_str`; `childrenGuarded`: `process_child_nodes` catches `Exception` around
+  `find_children_for_parent` and collects the value without children) EVERY heap is benign: rendering and child
+  discovery raise for no object, whatever its `len`, `tuple`, `isinstance`, `.args`, `hasattr`, `.__dict__` do.
+  Both guards are extracted facts, re-checked against the source on every run.
 -/
 import DeepModel.Proofs.CollectorClosed
 
 namespace Collector
 open Heap Extracted.Collector
 
-def _root_.Heap.Probe.isOk {α : Type} : Probe α → Bool
-  | .ok _ => true
-  | .raises _ => false
+theorem guards_present : lenGuarded = true ∧ childrenGuarded = true := by decide
 
-/-- the unguarded probes of `variable_to_string` and `find_children_for_parent` succeed on this object -/
-def benignObj (o : PyObj) : Bool :=
-  (match renderKind o.tyName o.isDictExact with
-    | .lenFmt _ _ => o.len.isOk
-    | _ => true) &&
-  (o.isDictExact ||
-    (if listLikeTypes.contains o.tyName then o.seq.isOk
-     else match o.isExc with
-       | .raises _ => false
-       | .ok true => o.excArgs.isOk
-       | .ok false =>
-         match o.hasDict with
-         | .raises _ => false
-         | .ok true => o.attrs.isOk
-         | .ok false => true))
+theorem renderText_total (o : PyObj) : ∃ text, renderText o = .ok text := by
+  unfold renderText
+  cases renderKind o.tyName o.isDictExact with
+  | typeFmt pre post => exact ⟨_, rfl⟩
+  | lenFmt pre post =>
+    cases o.len with
+    | ok n => exact ⟨_, rfl⟩
+    | raises m => exact ⟨safeStr o, by simp [guards_present.1]⟩
+  | safeStr => exact ⟨_, rfl⟩
 
-theorem benign_inert : benignObj PyObj.inert = true := by decide
-
-theorem benign_of_obj (o : PyObj) (h : benignObj o = true) :
-    (∃ text, renderText o = .ok text) ∧ ∀ L pvid d, ∃ cs, childNodes L pvid o d = .ok cs := by
-  unfold benignObj at h
-  simp only [Bool.and_eq_true] at h
-  obtain ⟨h1, h2⟩ := h
-  constructor
-  · unfold renderText
-    cases hr : renderKind o.tyName o.isDictExact with
-    | typeFmt pre post => exact ⟨_, rfl⟩
-    | lenFmt pre post =>
-      simp only [hr] at h1
-      cases hl : o.len with
-      | ok n => exact ⟨_, rfl⟩
-      | raises m => simp [hl, Probe.isOk] at h1
-    | safeStr => exact ⟨_, rfl⟩
-  · intro L pvid d
-    unfold childNodes
-    split
+theorem childNodes_total (L : Limits) (pvid : Nat) (o : PyObj) (d : Nat) : ∃ cs, childNodes L pvid o d = .ok cs := by
+  unfold childNodes
+  split
+  · exact ⟨_, rfl⟩
+  · split
     · exact ⟨_, rfl⟩
-    · split
-      · exact ⟨_, rfl⟩
-      · simp only [childBranches, branchChildren]
-        by_cases hd : o.isDictExact = true
-        · simp only [hd, if_true]; exact ⟨_, rfl⟩
-        · simp only [hd, Bool.false_eq_true, if_false, Bool.false_or] at h2 ⊢
-          by_cases hl : listLikeTypes.contains o.tyName = true
-          · simp only [hl, if_true] at h2 ⊢
-            cases hs : o.seq with
-            | ok xs => exact ⟨_, rfl⟩
-            | raises m => simp [hs, Probe.isOk] at h2
-          · simp only [hl, Bool.false_eq_true, if_false] at h2 ⊢
-            cases he : o.isExc with
-            | raises m => simp [he] at h2
-            | ok b =>
-              cases b with
-              | true =>
-                simp only [he] at h2 ⊢
-                cases hs : o.excArgs with
-                | ok xs => exact ⟨_, rfl⟩
-                | raises m => simp [hs, Probe.isOk] at h2
-              | false =>
-                simp only [he] at h2 ⊢
-                cases hh : o.hasDict with
-                | raises m => simp [hh] at h2
-                | ok b =>
-                  cases b with
-                  | true =>
-                    simp only [hh] at h2 ⊢
-                    cases hs : o.attrs with
-                    | ok xs => exact ⟨_, rfl⟩
-                    | raises m => simp [hs, Probe.isOk] at h2
-                  | false => exact ⟨_, rfl⟩
+    · cases branchChildren L pvid (d + 1) o childBranches with
+      | ok cs => exact ⟨cs, rfl⟩
+      | error m => exact ⟨[], by simp [guards_present.2]⟩
 
-/-- a heap all of whose objects pass the check is benign -/
-theorem benign_of_check (H : Heap) (h : H.objs.all benignObj = true) : Benign H := by
-  intro i
-  apply benign_of_obj
-  unfold Heap.obj
-  cases hi : H.objs[i]? with
-  | none => exact benign_inert
-  | some o =>
-    simp only [Option.getD_some]
-    exact List.all_eq_true.mp h o (List.mem_of_getElem? hi)
+/-- **every heap is benign** -/
+theorem benign_all (H : Heap) : Benign H := fun i => ⟨renderText_total _, fun L pvid d => childNodes_total L pvid _ d⟩
+
+/-- a probe that raises costs the value its children, nothing else: `childNodes` yields no children -/
+theorem childNodes_of_raise (L : Limits) (pvid : Nat) (o : PyObj) (d : Nat) (m : String)
+    (h : branchChildren L pvid (d + 1) o childBranches = .error m) : childNodes L pvid o d = .ok [] := by
+  unfold childNodes
+  split
+  · rfl
+  · split
+    · rfl
+    · rw [h]; simp [guards_present.2]
 
 end Collector
